@@ -516,3 +516,10 @@ def run(ctx: Ctx) -> None:
 
 def replay(ctx: Ctx, case: Dict[str, Any]) -> None:
     run_case(ctx, case)
+
+
+def blend_case(rng) -> Dict[str, Any]:
+    case = gen_tree_case(rng)
+    if rng.random() < 0.4:
+        return {"kind": "mutated", "string": mutate(rng, case["string"]), "from": case["string"]}
+    return case
